@@ -74,26 +74,28 @@ Theorem writers_disciplined :
 Proof. exact WritersProofs.writers_disciplined_all. Qed.
 Print Assumptions writers_disciplined.
 
-(* ... and C08's three flight clauses hold as well, provided no packet of _write_application carries a PATH_CHALLENGE
-   before an ACK (dts_ackfirst) *)
+(* ... and C08's three flight clauses hold as well (ACK / CONNECTION_CLOSE are the first frame of their packet in every
+   packet loop since fix 7b299f1) *)
 Theorem writers_flight_disciplined :
   forall (c : cfg) (pn : Z) (d : Writers.dts_in),
-    WritersProofs.dts_ok d -> WritersProofs.dts_ackfirst d ->
+    WritersProofs.dts_ok d ->
     BuilderFlight.fl_disciplined c (init_st c pn) (Writers.dts_trace c pn d) = true.
 Proof. exact WritersProofs.writers_flight_disciplined_all. Qed.
 Print Assumptions writers_flight_disciplined.
 
-(* without that proviso the flight discipline fails: _write_application writes PATH_CHALLENGE before ACK; with
-   max_flight_bytes = 36 the packet PATH_CHALLENGE + ACK is 49 bytes, in flight and ack-eliciting (candidate finding F14) *)
-Theorem writers_flight_refuted :
-  exists (c : cfg) (d : Writers.dts_in) (mf : Z),
-    c_max_flight c = Some mf /\ wf_cfg c /\ crypto_fits c /\ WritersProofs.dts_ok d /\
-    disciplined c (init_st c 0) (Writers.dts_trace c 0 d) = true /\
-    BuilderFlight.fl_disciplined c (init_st c 0) (Writers.dts_trace c 0 d) = false /\
-    snd (BuilderFlight.run_pk c (init_st c 0) (Writers.dts_trace c 0 d)) = [(PT_ONE_RTT, 49, true, true, false, 0)] /\
-    mf = 36.
-Proof. exact WritersCorollaries.writers_flight_refuted_w. Qed.
-Print Assumptions writers_flight_refuted.
+(* the FORMER order of _write_application (PATH_CHALLENGE before ACK; finding C08-F14, fixed by 7b299f1), as an explicit
+   builder op history: inside C13's discipline, outside the flight clauses; with max_flight_bytes = 36 the packet
+   PATH_CHALLENGE + ACK is 49 bytes, in flight and ack-eliciting *)
+Theorem former_order_flight_refuted :
+  c_max_flight WritersCorollaries.refute_cfg = Some 36 /\ wf_cfg WritersCorollaries.refute_cfg /\
+  crypto_fits WritersCorollaries.refute_cfg /\
+  disciplined WritersCorollaries.refute_cfg (init_st WritersCorollaries.refute_cfg 0) WritersCorollaries.former_order_trace = true /\
+  BuilderFlight.fl_disciplined WritersCorollaries.refute_cfg (init_st WritersCorollaries.refute_cfg 0)
+    WritersCorollaries.former_order_trace = false /\
+  snd (BuilderFlight.run_pk WritersCorollaries.refute_cfg (init_st WritersCorollaries.refute_cfg 0)
+         WritersCorollaries.former_order_trace) = [(PT_ONE_RTT, 49, true, true, false, 0)].
+Proof. exact WritersCorollaries.former_order_flight_refuted_w. Qed.
+Print Assumptions former_order_flight_refuted.
 
 (* the C13 statements for op histories generated by the writer model: no discipline hypothesis left *)
 Theorem datagram_le_max_connection :
@@ -121,7 +123,7 @@ Print Assumptions amplification_bound_connection.
 (* C08 flight budget, builder level: all in-flight packets of one datagrams_to_send call <= max(0, max_flight_bytes) *)
 Theorem flight_le_budget_connection :
   forall (c : cfg) (mf pn : Z) (d : Writers.dts_in),
-    c_max_flight c = Some mf -> wf_cfg c -> crypto_fits c -> WritersProofs.dts_ok d -> WritersProofs.dts_ackfirst d ->
+    c_max_flight c = Some mf -> wf_cfg c -> crypto_fits c -> WritersProofs.dts_ok d ->
     BuilderFlight.fl_sum (snd (BuilderFlight.run_pk c (init_st c pn) (Writers.dts_trace c pn d))) +
     BuilderFlight.fl_sum (b_pkts (fst (BuilderFlight.run_pk c (init_st c pn) (Writers.dts_trace c pn d)))) <= Z.max 0 mf.
 Proof. exact WritersCorollaries.flight_le_budget_conn. Qed.
@@ -132,7 +134,7 @@ Theorem flight_budget_connection :
   forall (T C : Type) (cc : RecBase.ccops T C), RecoveryProofs.cc_spec cc ->
   forall (st : Recovery.rec (T:=T) (C:=C)) sp now c mf pn d,
   (forall t, (sp t < length (Recovery.r_spaces st))%nat) ->
-  c_max_flight c = Some mf -> wf_cfg c -> crypto_fits c -> WritersProofs.dts_ok d -> WritersProofs.dts_ackfirst d ->
+  c_max_flight c = Some mf -> wf_cfg c -> crypto_fits c -> WritersProofs.dts_ok d ->
   RecBase.cc_bif cc (Recovery.r_cc (FlightBudget.register cc sp now st (FlightBudget.built c pn (Writers.dts_trace c pn d)))) =
     RecBase.cc_bif cc (Recovery.r_cc st) + BuilderFlight.fl_sum (FlightBudget.built c pn (Writers.dts_trace c pn d)) /\
   RecBase.cc_bif cc (Recovery.r_cc (FlightBudget.register cc sp now st (FlightBudget.built c pn (Writers.dts_trace c pn d))))
